@@ -101,7 +101,7 @@ DELIVERIES = ("bytes", "bytearray", "BytesIO", "BytesIO@3", "file", "nonseekable
 def pickles(tier):
     out = list(boundary_programs())
     vals = corpus.plain_values("quick")
-    step = 6 if tier == "quick" else 1
+    step = 3 if tier == "quick" else 1
     for i, v in enumerate(vals[::step]):
         for tag, b in corpus.pickles_of(v):
             out.append((f"plain[{i}]/{tag}", b))
